@@ -119,13 +119,31 @@ def check_C09(ctx, rep):
         b = f.get(ident)
         if b is None:
             rep.fail("R23", ident, "anchor-lost:" + ident, "%s not found" % ident); continue
-        tr = H.tree_of(f, b, "none")
-        ok = tr[0] == "switch"
-        if ok:
-            for v, sub in tr[2]:
-                want = "%s%s%d" % (pre, tys, 8 * v)
-                names = [n[1] for n in all_nodes(sub[1]) if tag(n) == "call"] if sub[0] == "leaf" else []
-                ok &= any(nm.endswith("::" + want) for nm in names)
+        if pre == "to_":
+            # arm for size v: to_<t>(self) mapped with the lossless / same-width cast to the pointer-sized type, in any spelling
+            # (`.map(|i| i as isize)`, `Some(x? as isize)`, `isize::from`): compared semantically with the plumbing read through
+            tr = H.tree_of(f, b, "op")
+            ok = tr[0] == "switch"
+            if ok:
+                for v, sub in tr[2]:
+                    t_ = "%s%d" % (tys, 8 * v)
+                    C = call("<TwoFloat as num_traits::ToPrimitive>::to_%s" % t_, a)
+                    pay = mk("field", mk("downcast", C, "Some"), 0)
+                    conv = vg.Exec(f, vg.Policy(f, "none")).cast("IntToInt", t_, tys + "size", pay)
+                    NONE_ = mk("agg", ("adt", "core::option::Option", 0, "None"), ())
+                    ref = ("switch", mk("discr", C), ((0, ("leaf", NONE_, ())), (1, ("leaf", SOME(conv), ()))), ("unreachable",))
+                    try:
+                        ok &= D.equivalent(sub, ref) is None
+                    except RuntimeError:
+                        ok = False
+        else:
+            tr = H.tree_of(f, b, "none")
+            ok = tr[0] == "switch"
+            if ok:
+                for v, sub in tr[2]:
+                    want = "%s%s%d" % (pre, tys, 8 * v)
+                    names = [n[1] for n in all_nodes(sub[1]) if tag(n) == "call"] if sub[0] == "leaf" else []
+                    ok &= any(nm.endswith("::" + want) for nm in names)
         n23 += 1
         rep.check(ok, "R23", "%s::%s%ssize" % (kind, pre, tys), "delegation:%s%ssize" % (pre, tys), "%s%ssize does not dispatch on size_of to the matching fixed-width route: %s" % (pre, tys, vg.show(tr)[:300]), where=H.where(b), nontrivial=False)
     b = f.get("<TwoFloat as num_traits::ToPrimitive>::to_f64")
@@ -133,31 +151,49 @@ def check_C09(ctx, rep):
         tr = H.tree_of(f, b, "op")
         n23 += 1
         rep.check(tr[0] == "leaf" and tr[1] is SOME(HI(a)), "R23", "ToPrimitive::to_f64", "delegation:to_f64", "to_f64 is not Some(hi): %s" % vg.show(tr)[:200], where=H.where(b), nontrivial=False)
-    # NumCast: every produced TwoFloat comes from a From impl, and the f64 fast path is limited to |f| <= 2^53
+    # NumCast::from: the route table (f64 fast path only up to 2^53, then i128, then u128, f64 as the last resort), compared
+    # semantically with Option combinators / `?` / if-let ladders read through
     b = f.get("<TwoFloat as num_traits::NumCast>::from")
     if b is not None:
-        tr = H.tree_of(f, b, "none")
-        thr = []
-        srcs = set()
-        def visit(c):
-            for n in all_nodes(c):
-                if tag(n) == "cmp" and n[1] == "le" and tag(n[4]) == "const" and n[2] == "f64":
-                    thr.append(D.f64v(n[4]))
-        def walk(x):
-            if x[0] == "if":
-                visit(x[1]); walk(x[2]); walk(x[3])
-            elif x[0] == "switch":
-                for _, y in x[2]:
-                    walk(y)
-                walk(x[3])
-            elif x[0] == "leaf":
-                for n in all_nodes(x[1]):
-                    if tag(n) == "call" and "core::convert::From<" in n[1]:
-                        srcs.add(n[1])
-        walk(tr)
-        n23 += 1
-        rep.check(thr == [2.0 ** 53] or (thr and all(x == 2.0 ** 53 for x in thr)), "R23", "NumCast::from f64 fast path", "numcast-threshold",
-                  "NumCast::from takes the f64 route for |f| <= %s, expected at most 2^53 (beyond it to_f64() has already rounded)" % thr, where=H.where(b), detail={"threshold": thr, "sources": sorted(srcs)})
+        FROMS = {t: "<TwoFloat as core::convert::From<%s>>::from" % t for t in ("i128", "u128")}
+        try:
+            tr = H.tree_of(f, b, "op", keep=tuple(FROMS.values()))
+        except vg.Unsupported as u:
+            tr = None
+            rep.fail("R23", "NumCast::from", "unsupported:numcast", "cannot evaluate NumCast::from: %s" % u, where=H.where(b))
+        if tr is not None:
+            names = {}
+            def scan(x):
+                if x[0] in ("if", "switch"):
+                    for n in all_nodes(x[1]):
+                        if tag(n) == "call":
+                            for k in ("to_f64", "to_i128", "to_u128"):
+                                if ("::" + k + "<") in n[1] or n[1].endswith("::" + k):
+                                    names.setdefault(k, n[1])
+                    if x[0] == "if":
+                        scan(x[2]); scan(x[3])
+                    else:
+                        for _, y in x[2]:
+                            scan(y)
+                        scan(x[3])
+            scan(tr)
+            n23 += 1
+            if set(names) != {"to_f64", "to_i128", "to_u128"}:
+                rep.fail("R23", "NumCast::from", "numcast-routes", "NumCast::from does not consult to_f64, to_i128 and to_u128 of its argument: %s" % sorted(names), where=H.where(b))
+            else:
+                n_ = P(0)
+                Fc, Ic, Uc = (call(names[k], n_) for k in ("to_f64", "to_i128", "to_u128"))
+                pay = lambda X: mk("field", mk("downcast", X, "Some"), 0)
+                # From<f64> is {f, 0.0} (C02/R4) in whichever spelling; the wide-integer impls stay opaque (C09/R22)
+                via = lambda X, ty: ("leaf", SOME(tf(pay(X), c64(0.0)) if ty == "f64" else call(FROMS[ty], pay(X))), ())
+                NONE_ = ("leaf", mk("agg", ("adt", "core::option::Option", 0, "None"), ()), ())
+                def opt(X, some, none):
+                    return ("switch", mk("discr", X), ((0, none), (1, some)), ("unreachable",))
+                wide = lambda last: opt(Ic, via(Ic, "i128"), opt(Uc, via(Uc, "u128"), last))
+                small = cmp("le", call("libm::fabs", pay(Fc)), c64(2.0 ** 53))
+                ref = opt(Fc, IF(small, via(Fc, "f64"), wide(via(Fc, "f64"))), wide(NONE_))
+                expect_equiv(rep, "R23", "NumCast::from route table", "numcast-routes", tr, ref, b,
+                             "to_f64: |f| <= 2^53 -> from(f); else to_i128 -> from, else to_u128 -> from, else from(f); no f64: to_i128, to_u128, None")
     from . import rules_total
     rules_total.totality(rep, f, "R24", rules_total.entries_C09(f), "conversions", min_sites=20)
     rep.floor("R21", len([o for o in rep.obl if o["rule"] == "R21"]), 22, "small-int and float conversions")
